@@ -23,7 +23,8 @@ changes the model the theorems of coq/C06/Properties.v are checked against):
   * enum CfiReg: variant order and the derives (the sort of the remaining rules is the derived Ord).
   * record selection: the comparison of walk_frame's `while .. add_rules[count].address <= addr` loop (mod.rs), whether
     finish_item sorts the delta records (parser.rs); CfiRules' field order / derive(Ord) and StackInfoCfi::memory_range
-    (types.rs) are pinned."""
+    (types.rs) are pinned.
+  * minidump-unwind/src/lib.rs: the nine FrameWalker callbacks of CfiStackWalker are pinned (signature + body)."""
 import os
 import re
 import sys
@@ -657,6 +658,47 @@ m_ = re.search(r"impl StackInfoCfi \{\s*pub fn memory_range\(&self\) -> Option<R
 if not m_ or nows(m_.group(1)) != "ifself.size==0{returnNone;}Some(Range::new(self.init.address,self.init.address.checked_add(self.sizeasu64)?-1,))":
     die("types.rs: StackInfoCfi::memory_range changed")
 
+
+# ----------------------------------------------------------------------------- CfiStackWalker's FrameWalker callbacks (pinned)
+librs = open(os.path.join(repo, "minidump-unwind/src/lib.rs")).read()
+i_ = librs.find("impl<'a, C> FrameWalker for CfiStackWalker<'a, C>")
+if i_ < 0:
+    die("minidump-unwind/src/lib.rs: impl FrameWalker for CfiStackWalker not found")
+j_ = librs.index("\n}\n", i_)
+impl = librs[i_:j_]
+CALLBACKS = [
+    ("get_instruction", "(&self)->u64", "self.instruction"),
+    ("has_grand_callee", "(&self)->bool", "self.has_grand_callee"),
+    ("get_grand_callee_parameter_size", "(&self)->u32", "self.grand_callee_parameter_size"),
+    ("get_register_at_address", "(&self,address:u64)->Option<u64>",
+     "letresult:Option<C::Register>=self.stack_memory.get_memory_at_address(address);result.and_then(|val|u64::try_from(val).ok())"),
+    ("get_callee_register", "(&self,name:&str)->Option<u64>",
+     "self.callee_ctx.get_register(name,self.callee_validity).and_then(|val|u64::try_from(val).ok())"),
+    ("set_caller_register", "(&mutself,name:&str,val:u64)->Option<()>",
+     "letmemoized=self.caller_ctx.memoize_register(name)?;letval=C::Register::try_from(val).ok()?;"
+     "self.caller_validity.insert(memoized);self.caller_ctx.set_register(name,val)"),
+    ("clear_caller_register", "(&mutself,name:&str)",
+     "ifletSome(memoized)=self.caller_ctx.memoize_register(name){self.caller_validity.remove(memoized);}"),
+    ("set_cfa", "(&mutself,val:u64)->Option<()>",
+     "letstack_pointer_reg=self.caller_ctx.stack_pointer_register_name();letval=C::Register::try_from(val).ok()?;"
+     "self.caller_validity.insert(stack_pointer_reg);self.caller_ctx.set_register(stack_pointer_reg,val)"),
+    ("set_ra", "(&mutself,val:u64)->Option<()>",
+     "letinstruction_pointer_reg=self.caller_ctx.instruction_pointer_register_name();letval=C::Register::try_from(val).ok()?;"
+     "self.caller_validity.insert(instruction_pointer_reg);self.caller_ctx.set_register(instruction_pointer_reg,val)"),
+]
+found = re.findall(r"\n    fn (\w+)", impl)
+if found != [c[0] for c in CALLBACKS]:
+    die("CfiStackWalker: the FrameWalker callbacks are now %s" % found)
+for name, sig_, want in CALLBACKS:
+    k_ = impl.index("\n    fn %s" % name)
+    b_ = impl.index("{", k_)
+    e_ = impl.index("\n    }", b_)
+    if nows(impl[k_ + len("\n    fn %s" % name):b_]) != sig_:
+        die("CfiStackWalker::%s: signature changed: %s" % (name, nows(impl[k_:b_])))
+    if nows(impl[b_ + 1:e_]) != want:
+        die("CfiStackWalker::%s: body changed (the real-walker model real_ops / real_callee / mem_read of C06/Model.v was written for `%s`): %s"
+            % (name, want, nows(impl[b_ + 1:e_])[:300]))
+
 # ----------------------------------------------------------------------------- output
 def lst(items, indent="  "):
     if not items:
@@ -733,11 +775,15 @@ Inductive gcmp := CmpLe | CmpLt.
 Definition cfi_take_cmp : gcmp := %s.
 (* parser.rs finish_item: cur.add_rules.sort() (derived Ord of CfiRules: address, then rules) *)
 Definition cfi_deltas_sorted : bool := %s.
+
+(* ---- minidump-unwind/src/lib.rs: the FrameWalker callbacks of CfiStackWalker, pinned to the text the real-walker
+        model (real_ops, real_callee, mem_read of C06/Model.v) was written for ---- *)
+Definition cfi_walker_callbacks : nat := %d.
 """ % (
     lst(["(%s,\n    %s)" % (coq_bytes(t), lst(ss, "    ")) for t, ss in arms]),
     lst(chain), final_len, ord(label_suffix), label_suffix, lst(classify),
     " < ".join(v.split("(")[0] for v in variants), lst(steps),
-    loop_cfa, lst(on_ok), lst(on_reject or []), lst(on_fail), take_cmp, deltas_sorted)
+    loop_cfa, lst(on_ok), lst(on_reject or []), lst(on_fail), take_cmp, deltas_sorted, len(CALLBACKS))
 path = os.path.join(outdir, "CfiOps.v")
 os.makedirs(outdir, exist_ok=True)
 try:
